@@ -5,7 +5,8 @@
                                   ([accept]; [accept_prefix] is the code BEFORE the fix commit
                                   24c42e028, whose Updated grant carried no allow list)
       x/marker/keeper/marker.go   TransferCoin, canForceTransferFrom, authzHandler,
-                                  validateSendToMarker, WithdrawCoins (recipient checks)
+                                  validateSendToMarker, WithdrawCoins (recipient checks),
+                                  IbcTransferCoin
       x/marker/keeper/msg_server.go Transfer (ValidateBasic first)
       cosmos-sdk x/authz/keeper   DispatchActions / update / DeleteGrant: what is stored after a
                                   use (Delete -> grant removed, otherwise Updated replaces it)
@@ -210,6 +211,39 @@ Definition transfer_gen2 (dest_ok : dest -> bool) (acc : grant -> tmsg -> option
 
 Definition transfer_gen := transfer_gen2 dest_marker_ok.
 Definition transfer := transfer_gen accept.
+
+(** ** IbcTransferCoin (marker.go; msg_server.go IbcTransfer runs ValidateBasic first, which wants a
+    positive token).  The marker must be restricted (its STATUS is not read), the administrator
+    must hold TRANSFER (FORCE_TRANSFER does not stand in), and when the administrator is not the
+    sender the sender's MarkerTransferAuthorization has to accept the message (receiver on the allow
+    list, limit) -- there is NO forced variant of this endpoint.  The token then goes to the ibc
+    transfer module (here: into the channel's escrow account) when the sender's balance covers it.
+    [forced_branch = true] is the variant that shares TransferCoin's source logic, refuted in
+    Proofs/MarkerTransferProofs.v.  Returns the sender's grant as stored afterwards. *)
+Definition ibc_transfer_gen (forced_branch : bool) (acc : grant -> tmsg -> option accept_res) (x : xfer)
+  : option (option grant) :=
+  let m := x_msg x in
+  if Z.leb (m_amt m) 0 then None
+  else if negb (is_restricted (x_type x)) then None
+  else if negb (has RTransfer (x_rights x)) then None
+  else
+    let how :=
+      if x_self x then Some (x_grant x)
+      else if forced_branch && x_forced x && has RForceTransfer (x_rights x) then
+        (if can_force_transfer_from (x_from x) then Some (x_grant x) else None)
+      else
+        match x_grant x with
+        | None => None
+        | Some g => match acc g m with
+                    | None => None
+                    | Some r => Some (stored_after r)
+                    end
+        end in
+    match how with
+    | None => None
+    | Some g' => if Z.ltb (x_frombal x) (m_amt m) then None else Some g'
+    end.
+Definition ibc_transfer := ibc_transfer_gen false accept.
 
 (** ** WithdrawCoins with its recipient (marker.go WithdrawCoins): WITHDRAW on the source marker,
     validateSendToMarker on the recipient, source marker active, recipient not blocked.  [c] is the
